@@ -116,10 +116,7 @@ def listChildrenOK (k : Kind) (cs : List ANode) : Bool :=
   | .funcCall =>
       -- callee and arguments; `table`/`grid` are laid out by other code
       (match cs with
-        | [callee, args] => chainHeadOK callee && args.kind == .args &&
-            -- `table`/`grid`: laid out by other code, which is covered for parenthesised arguments
-            (!(callee.kind == .ident && (callee.text == "table" || callee.text == "grid")) ||
-              (args.children.head?.map (·.kind == .leftParen)).getD false)
+        | [callee, args] => chainHeadOK callee && args.kind == .args
         | _ => false)
   | _ => false
 
@@ -227,7 +224,8 @@ def inFragM : ANode → Bool
   | .inner k cs _ =>
     if k == .funcCall then mathCallShapeB cs && inFragMCallL cs else
     (k.isMathFlow || k == .math || (k == .mathPrimes && cs.all (fun c => c.kind == .prime)) ||
-      (k == .mathDelimited && delimShapeB cs) || (k == .array && rowShapeB cs)) && inFragMS false cs
+      (k == .mathDelimited && delimShapeB cs) || (k == .array && rowShapeB cs) ||
+      (k == .fieldAccess && dotChildrenOK cs && !(cs.any fun c => isCommentKind c.kind))) && inFragMS false cs
 /-- The children of a call in math mode: the callee, and the arguments (a math sequence). -/
 def inFragMCallL : List ANode → Bool
   | [] => true
@@ -250,7 +248,8 @@ theorem inFragM_inner_call (cs : List ANode) (a : Attrs) :
 theorem inFragM_inner_ne (k : Kind) (cs : List ANode) (a : Attrs) (hk : k ≠ .funcCall) :
     inFragM (.inner k cs a) =
       ((k.isMathFlow || k == .math || (k == .mathPrimes && cs.all (fun c => c.kind == .prime)) ||
-        (k == .mathDelimited && delimShapeB cs) || (k == .array && rowShapeB cs)) && inFragMS false cs) := by
+        (k == .mathDelimited && delimShapeB cs) || (k == .array && rowShapeB cs) ||
+      (k == .fieldAccess && dotChildrenOK cs && !(cs.any fun c => isCommentKind c.kind))) && inFragMS false cs) := by
   have : (k == Kind.funcCall) = false := by simpa using hk
   simp only [inFragM, this, Bool.false_eq_true, ↓reduceIte]
 
@@ -480,7 +479,7 @@ theorem dotQ_frag : DotQ Q where
     simp only [Bool.and_eq_true, Bool.not_eq_true', beq_iff_eq] at h1
     have hqs := h.2
     simp only [inFragL, Bool.and_eq_true] at hqs
-    exact ⟨callee, args, rfl, h1.1.1, h1.1.2, inFrag_lex _ hqs.1, hqs.1, hqs.2.1⟩
+    exact ⟨callee, args, rfl, h1.1, h1.2, inFrag_lex _ hqs.1, hqs.1, hqs.2.1⟩
 
 theorem impQ_frag : ImpQ Q where
   inner := by
@@ -679,6 +678,40 @@ theorem args_frag (e : Env) (r : Rec) (hr : RecOK r Q) (ctx : Ctx) (hctx : NM ct
       rw [hdw, hfl]
       refine Post.bind (Q := fun x => Carries x (specAllL cs)) (Post.bind (hblocks cs (fun b hb => hb) hch) (fun docs hd => Post.pure hd)) (fun x hx => Post.pure ?_)
       simpa using Carries.nil.app hx
+
+theorem dropWhile_all_nil {α : Type} (p : α → Bool) (l : List α) (h : ∀ x ∈ l, p x = true) : l.dropWhile p = [] := by
+  induction l with
+  | nil => rfl
+  | cons x xs ih =>
+    rw [List.dropWhile_cons, h x List.mem_cons_self]
+    exact ih (fun y hy => h y (List.mem_cons_of_mem _ hy))
+
+/-- An argument list without a parenthesised part has no "parenthesised arguments". -/
+theorem parenArgsUntyped_noparen (args : ANode) (hak : args.kind = .args) (hq : inFrag args = true)
+    (hp : (args.children.head?.map (·.kind == .leftParen)).getD false = false) : parenArgsUntyped args = [] := by
+  cases args with
+  | leaf ka ta aa =>
+    simp only [ANode.kind] at hak; subst hak
+    simp [inFrag, Kind.isInnerKind] at hq
+  | inner ka acs aa =>
+    simp only [ANode.kind] at hak; subst hak
+    rw [inFrag_inner_ne _ _ _ (by decide)] at hq
+    simp only [Bool.and_eq_true] at hq
+    have hcha : listChildrenOK .args acs = true := by
+      have h1 := hq.1
+      simp [Kind.isFragFlow, Kind.isFragElem, Kind.isFragList, Kind.isFragWrap, Kind.isFragItem, Kind.isImportPart] at h1
+      exact h1
+    simp only [ANode.children] at hp
+    simp only [listChildrenOK, hp, Bool.false_eq_true, ↓reduceIte] at hcha
+    unfold parenArgsUntyped
+    simp only [ANode.children]
+    have hdw : acs.dropWhile (fun x => x.kind != .leftParen) = [] := by
+      apply dropWhile_all_nil
+      intro x hx
+      have := blockShape_kind x (List.all_eq_true.mp hcha x hx)
+      have hk : x.kind = .contentBlock := by simpa using this
+      rw [hk]; rfl
+    rw [hdw]; rfl
 
 /-- The shape of a parenthesised argument list of the fragment: `( items )` then trailing content blocks. -/
 theorem argsParen_shape (cs : List ANode) (a : Attrs) (hq : inFrag (.inner .args cs a) = true)
@@ -1276,7 +1309,7 @@ theorem convExpr_frag (e : Env) (r : Rec) (hr : RecOK r Q) (hrM : RecOKM r QM) (
         simp only [listChildrenOK] at hch
         rcases cs with _ | ⟨callee, _ | ⟨args, _ | ⟨c2, rest⟩⟩⟩ <;> simp only [Bool.false_eq_true] at hch
         simp only [Bool.and_eq_true, Bool.not_eq_true', beq_iff_eq] at hch
-        obtain ⟨⟨hhead, hak⟩, htab⟩ := hch
+        obtain ⟨hhead, hak⟩ := hch
         have hcx : isExpr callee = true := by
           simp only [chainHeadOK, Bool.and_eq_true] at hhead; exact hhead.1
         have hqs := hq.2
@@ -1301,21 +1334,25 @@ theorem convExpr_frag (e : Env) (r : Rec) (hr : RecOK r Q) (hrM : RecOKM r QM) (
           have hm : (ctx.mode == LMode.math) = false := by unfold NM at hctx; simpa using hctx
           by_cases htb : isTable (.inner .funcCall [callee, args] a) = true
           · -- `table` / `grid`
-            have hpar : (args.children.head?.map (·.kind == .leftParen)).getD false = true := by
-              rcases (by simpa using htab : _ ∨ _) with h | h
-              · exfalso
-                unfold isTable identFuncName firstWhere at htb
-                simp only [ANode.children, hf1] at htb
-                by_cases hid : callee.kind = .ident
-                · simp only [hid, beq_self_eq_true, ↓reduceIte, Bool.or_eq_true, beq_iff_eq, Option.some.injEq] at htb
-                  rcases h with hh | hh
-                  · exact hh hid
-                  · rcases htb with h1 | h1
-                    · exact hh.1 h1
-                    · exact hh.2 h1
-                · have : (callee.kind == .ident) = false := by simpa using hid
-                  simp [this] at htb
-              · exact h
+            by_cases hpar' : (args.children.head?.map (·.kind == .leftParen)).getD false = false
+            · -- no parenthesised part: trailing content blocks only, nothing to reflow
+              have hnone : isFormatableTable (.inner .funcCall [callee, args] a) = none := by
+                unfold isFormatableTable
+                have hfm : isFormatable (.inner .funcCall [callee, args] a) = false := by
+                  unfold isFormatable lastWhere
+                  simp only [show (ANode.inner Kind.funcCall [callee, args] a).children = [callee, args] from rfl, hf2]
+                  have hpu : parenArgsUntyped args = [] := parenArgsUntyped_noparen args hak hqs.2.1 hpar'
+                  rw [hpu]
+                  cases (args.children.any fun c => isCommentKind c.kind) <;> rfl
+                simp [hfm]
+              have heqa : convFuncCallArgs e r ctx (.inner .funcCall [callee, args] a) args = convArgs e r ctx args := by
+                unfold convFuncCallArgs convArgs hasParenArgs
+                simp only [hm, Bool.false_eq_true, ↓reduceIte, htb, hnone, hpar']
+              have ha := args_frag e r hr ctx hctx args hak hqs.2.1
+              rw [← heqa] at ha
+              refine Post.bind ha (fun da hda => Post.pure ?_)
+              simpa [specAllL_cons] using hdc.app hda
+            have hpar : (args.children.head?.map (·.kind == .leftParen)).getD false = true := by simpa using hpar'
             cases args with
             | leaf ka ta aa =>
               simp only [ANode.kind] at hak; subst hak
@@ -1994,6 +2031,22 @@ theorem convExprM_frag (e : Env) (r : Rec) (hr : RecOK r Q) (hrM : RecOKM r QM) 
       · subst hmk
         show Post (r.math ctx _) _
         exact hrM.math ctx _ hm rfl (by simp only [QM]; rw [inFragM_inner_ne _ _ _ (by decide)]; simp only [Bool.and_eq_true]; exact hq)
+      by_cases hfak : k = .fieldAccess
+      · subst hfak
+        have hsh : dotChildrenOK cs = true ∧ (cs.any fun c => isCommentKind c.kind) = false := by
+          simpa [Kind.isMathFlow] using h1
+        cases cs with
+        | nil => simp [dotChildrenOK] at hsh
+        | cons t rest =>
+          have hd1 := hsh.1
+          simp only [dotChildrenOK, Bool.and_eq_true] at hd1
+          have hxt : isExpr t = true := by
+            have := hd1.1; simp only [chainHeadOK, Bool.and_eq_true] at this; exact this.1
+          have hqt : inFragM t = true := by
+            have h2 := hq.2
+            simp only [inFragMS, Bool.and_eq_true] at h2
+            simpa [hxt] using h2.1
+          exact convFieldAccessM_carries e r hrM ctx hm t rest a hd' hxt hqt hd1.2 hlex hsh.2
       by_cases hark : k = .array
       · subst hark
         have hsh : rowShapeB cs = true := by simpa [Kind.isMathFlow] using h1
